@@ -12,6 +12,25 @@ theorem stripPrefix_append (a r : List UInt8) : stripPrefix a (a ++ r) = some r 
   | nil => simp [stripPrefix]
   | cons x xs ih => simp [stripPrefix, ih]
 
+/-- what the model of prepareAvcHeader puts into the PES of a NAL unit, as a list of NAL units
+    (delimiter for types 1, 5, 6; SPS/PPS for type 5; the unit itself) -/
+def modelNals (p : Params) (nal : List UInt8) : List (List UInt8) :=
+  let t := nalType nal
+  (if t = 1 ∨ t = 5 ∨ t = 6 then [audNal] else [])
+  ++ (if t = 5 then (if p.sps.isEmpty then [] else [p.sps]) ++ (if p.pps.isEmpty then [] else [p.pps]) else [])
+  ++ [nal]
+
+/-- … which is one of the forms the specification allows for that NAL unit -/
+theorem modelNals_mem_alts (p : Params) (nal : List UInt8) : modelNals p nal ∈ expectedNalsAlts p nal := by
+  unfold modelNals expectedNalsAlts
+  by_cases h5 : nalType nal = 5
+  · simp [h5]
+  · by_cases h1 : nalType nal = 1
+    · simp [h1]
+    · by_cases h6 : nalType nal = 6
+      · simp [h6]
+      · simp [h5, h1, h6]
+
 /-- the constants of prepareAvcHeader after the fix (no early return for types 7‥9) -/
 def AvcCfgOk (c : Cfg) : Prop :=
   c.audNal = [0, 0, 0, 1, 9, 0xf0] ∧ c.audTypes = [1, 5, 6] ∧ c.psTypes = [5] ∧ c.skipHi < c.skipLo
@@ -26,7 +45,7 @@ theorem match_short (nal rest : List UInt8) (nals : List (List UInt8)) :
 
 theorem avcHeader_annexb (c : Cfg) (hc : AvcCfgOk c) (p : Params) (nal hdr : List UInt8)
     (h : avcHeader c p.sps p.pps nal = some hdr) :
-    matchAnnexB (expectedNals p nal) (hdr ++ nal) = true := by
+    matchAnnexB (modelNals p nal) (hdr ++ nal) = true := by
   obtain ⟨haud, hat, hps, hskip⟩ := hc
   cases nal with
   | nil => simp [avcHeader] at h
@@ -44,11 +63,11 @@ theorem avcHeader_annexb (c : Cfg) (hc : AvcCfgOk c) (p : Params) (nal hdr : Lis
         cases hp : p.pps with
         | nil =>
           simp [h5, hs, hp] at h; subst h
-          simp only [expectedNals, nalType, h5, hs, hp, audNal]
+          simp only [modelNals, nalType, h5, hs, hp, audNal]
           simpa using (match_long [9, 0xf0] (0 :: 0 :: 1 :: (b0 :: tl)) [b0 :: tl]).trans hmN
         | cons q qs =>
           simp [h5, hs, hp] at h; subst h
-          simp only [expectedNals, nalType, h5, hs, hp, audNal]
+          simp only [modelNals, nalType, h5, hs, hp, audNal]
           have e2 := match_long (q :: qs) (0 :: 0 :: 1 :: (b0 :: tl)) [b0 :: tl]
           have e1 := match_long [9, 0xf0] (0 :: 0 :: 0 :: 1 :: ((q :: qs) ++ 0 :: 0 :: 1 :: (b0 :: tl))) [q :: qs, b0 :: tl]
           simpa using e1.trans (e2.trans hmN)
@@ -56,13 +75,13 @@ theorem avcHeader_annexb (c : Cfg) (hc : AvcCfgOk c) (p : Params) (nal hdr : Lis
         cases hp : p.pps with
         | nil =>
           simp [h5, hs, hp] at h; subst h
-          simp only [expectedNals, nalType, h5, hs, hp, audNal]
+          simp only [modelNals, nalType, h5, hs, hp, audNal]
           have e2 := match_long (s :: ss) (0 :: 0 :: 1 :: (b0 :: tl)) [b0 :: tl]
           have e1 := match_long [9, 0xf0] (0 :: 0 :: 0 :: 1 :: ((s :: ss) ++ 0 :: 0 :: 1 :: (b0 :: tl))) [s :: ss, b0 :: tl]
           simpa using e1.trans (e2.trans hmN)
         | cons q qs =>
           simp [h5, hs, hp] at h; subst h
-          simp only [expectedNals, nalType, h5, hs, hp, audNal]
+          simp only [modelNals, nalType, h5, hs, hp, audNal]
           have e3 := match_long (q :: qs) (0 :: 0 :: 1 :: (b0 :: tl)) [b0 :: tl]
           have e2 := match_long (s :: ss) (0 :: 0 :: 0 :: 1 :: ((q :: qs) ++ 0 :: 0 :: 1 :: (b0 :: tl))) [q :: qs, b0 :: tl]
           have e1 := match_long [9, 0xf0]
@@ -74,8 +93,8 @@ theorem avcHeader_annexb (c : Cfg) (hc : AvcCfgOk c) (p : Params) (nal hdr : Lis
         have hc : ([1, 5, 6] : List Nat).contains (b0.toNat % 32) = true := by
           rcases h16 with h | h <;> simp [h]
         simp [h5, h16] at h; subst h
-        have he : expectedNals p (b0 :: tl) = [[9, 0xf0], b0 :: tl] := by
-          rcases h16 with h | h <;> simp [expectedNals, nalType, h, audNal]
+        have he : modelNals p (b0 :: tl) = [[9, 0xf0], b0 :: tl] := by
+          rcases h16 with h | h <;> simp [modelNals, nalType, h, audNal]
         rw [he]
         simpa using (match_long [9, 0xf0] (0 :: 0 :: 1 :: (b0 :: tl)) [b0 :: tl]).trans hmN
       · -- everything else (SPS, PPS, AUD included): the NAL with a long start code
@@ -84,10 +103,16 @@ theorem avcHeader_annexb (c : Cfg) (hc : AvcCfgOk c) (p : Params) (nal hdr : Lis
         have hn1 : ¬ b0.toNat % 32 = 1 := by omega
         have hn6 : ¬ b0.toNat % 32 = 6 := by omega
         simp [h5, hn1, hn6] at h; subst h
-        have he : expectedNals p (b0 :: tl) = [b0 :: tl] := by
-          simp [expectedNals, nalType, h5, hn1, hn6]
+        have he : modelNals p (b0 :: tl) = [b0 :: tl] := by
+          simp [modelNals, nalType, h5, hn1, hn6]
         rw [he]
         simpa using hmL
+
+/-- the PES payload of a video frame is one of the Annex-B forms the specification allows -/
+theorem avcHeader_alts (c : Cfg) (hc : AvcCfgOk c) (p : Params) (nal hdr : List UInt8)
+    (h : avcHeader c p.sps p.pps nal = some hdr) :
+    (expectedNalsAlts p nal).any (matchAnnexB · (hdr ++ nal)) = true :=
+  List.any_eq_true.mpr ⟨_, modelNals_mem_alts p nal, avcHeader_annexb c hc p nal hdr h⟩
 
 /-- the ADTS template of NewADTSHeader -/
 def AdtsCfgOk (c : Cfg) : Prop := c.adts = [0xff, 0xf1, 0x00, 0x00, 0x00, 0x0f, 0xfc]
